@@ -852,3 +852,44 @@ fn bounded_reopen_equivalence_small_histories() {
     }
     assert!(count > 1800);
 }
+
+/// C12 "after every operation": the statistics a handle REPORTS (`Cas::stats()`) equal those of the index it shows, also after an
+/// operation whose blob clean-up failed (the index change is durable and visible, only the unlink failed).
+/// bound: one store, three histories (overwrite / remove / range removal whose released blob cannot be unlinked)
+#[test]
+fn bounded_reported_stats_match_index_after_failed_cleanup() {
+    fn expect_stats(cas: &crate::Cas<String>, what: &str) {
+        let (uniq, bytes) = {
+            let st = cas.read_index_state();
+            let mut by_hash: HashMap<BlobHash, u64> = HashMap::new();
+            for (_, it) in st.iter() { by_hash.insert(it.blob_hash, it.blob_size); }
+            (by_hash.len() as u64, by_hash.values().sum::<u64>())
+        };
+        let s = cas.stats();
+        assert_eq!(s.cas.unique_blobs, uniq, "{what}: reported unique_blobs must equal the number of distinct contents the index references");
+        assert_eq!(s.cas.total_bytes, bytes, "{what}: reported total_bytes must equal the sum of their lengths");
+    }
+    for variant in 0..3 {
+        let dir = tempfile::tempdir().unwrap();
+        let cas: crate::Cas<String> = crate::Cas::open(dir.path(), cfg()).unwrap();
+        put(&cas, "a".into(), b"first content of a");
+        put(&cas, "b".into(), b"content of b, longer than the other one");
+        expect_stats(&cas, "baseline");
+        // make the blob of "a" impossible to unlink: replace the file by a non-empty directory
+        let ha = cas.read_index_state().get_item(&"a".to_string()).unwrap().blob_hash;
+        let p = cas.as_arc().paths.cas_file_path(&ha);
+        std::fs::remove_file(&p).unwrap();
+        std::fs::create_dir(&p).unwrap();
+        std::fs::write(p.join("x"), b"x").unwrap();
+        let r: Result<(), String> = match variant {
+            0 => { let mut tx = cas.put("a".into()).unwrap(); tx.write(b"second").unwrap(); tx.finish().map_err(|e| e.to_string()) }
+            1 => cas.remove(&"a".to_string()).map(|_| ()).map_err(|e| e.to_string()),
+            _ => cas.remove_range("a".to_string()..="a".to_string()).map(|_| ()).map_err(|e| e.to_string()),
+        };
+        // the call may report the clean-up failure or succeed; either way what the handle reports must describe the index it shows
+        let _ = r;
+        expect_stats(&cas, &format!("variant {variant}: after an operation whose blob clean-up failed"));
+        put(&cas, "c".into(), b"third");
+        expect_stats(&cas, &format!("variant {variant}: after a later successful put"));
+    }
+}
